@@ -61,7 +61,7 @@ End TmInd.
 Section BindingInd.
   Variable P : binding -> Prop.
   Hypothesis HClos : forall e rho, Forall (fun p => P (snd p)) rho -> P (BClos e rho).
-  Hypothesis HRecB : forall defs rho x, Forall (fun p => P (snd p)) rho -> P (BRec defs rho x).
+  Hypothesis HRecB : forall a defs rho x, Forall (fun p => P (snd p)) rho -> P (BRec a defs rho x).
 
   Fixpoint binding_ind' (b : binding) : P b :=
     let go := fix go (l : list (string * binding)) : Forall (fun p => P (snd p)) l :=
@@ -71,7 +71,7 @@ Section BindingInd.
                 end in
     match b with
     | BClos e rho => HClos e rho (go rho)
-    | BRec defs rho x => HRecB defs rho x (go rho)
+    | BRec a defs rho x => HRecB a defs rho x (go rho)
     end.
 End BindingInd.
 
@@ -145,7 +145,7 @@ Lemma force_with_mono_step : forall n b r,
   mono_at n ->
   force_with (eval fl n) b = r -> r <> OutOfFuel -> force_with (eval fl (S n)) b = r.
 Proof.
-  intros n b r IH H Hr. destruct b as [e rho|defs rho x]; cbn [force_with] in *.
+  intros n b r IH H Hr. destruct b as [e rho|a defs rho x]; cbn [force_with] in *.
   - now apply IH.
   - destruct (lookup x defs); [now apply IH|assumption].
 Qed.
@@ -203,7 +203,7 @@ Lemma force_mono : forall n m b r,
   force fl n b = r -> r <> OutOfFuel -> n <= m -> force fl m b = r.
 Proof.
   unfold force. intros n m b r H Hr Hle.
-  destruct b as [e rho|defs rho x]; cbn [force_with] in *.
+  destruct b as [e rho|a defs rho x]; cbn [force_with] in *.
   - eapply eval_mono; eauto.
   - destruct (lookup x defs); [eapply eval_mono; eauto|assumption].
 Qed.
